@@ -81,6 +81,29 @@ theorem C18_horizon_is_version_witness :
   rw [VFile.lastBefore_eq hwf rfl, VFile.lastBefore_eq (hwf.collectOld 5) rfl]
   decide
 
+/-- Snapshot lookups are monotone in the snapshot point: a later point never sees an older
+    version, and it sees *something* whenever the earlier point did. -/
+theorem C18_lastBefore_mono (f : VFile) (h : f.WF) (hws : f.ws = false) (s s' : Nat) (hss : s ≤ s')
+    (v : Ver) (hv : f.lastBefore s = some v) :
+    ∃ v', f.lastBefore s' = some v' ∧ v.seq ≤ v'.seq := by
+  obtain ⟨hm, hlt, _⟩ := C18_lastBefore_max f h hws s v hv
+  cases hv' : f.lastBefore s' with
+  | none =>
+    exact absurd (show v.seq < s' by omega) ((C18_lastBefore_none f h hws s').mp hv' v hm)
+  | some v' =>
+    exact ⟨v', rfl, (C18_lastBefore_max f h hws s' v' hv').2.2 v hm (by omega)⟩
+
+/-- Two snapshot points with no version numbered between them read the same version: a lookup
+    depends on the point only through the set of versions before it. -/
+theorem C18_lastBefore_stable (f : VFile) (h : f.WF) (hws : f.ws = false) (s s' : Nat)
+    (hgap : ∀ u ∈ f.l, (u.seq < s ↔ u.seq < s')) :
+    f.lastBefore s = f.lastBefore s' := by
+  rw [C18_lastBefore f h hws s, C18_lastBefore f h hws s']
+  congr 1
+  apply List.filter_congr
+  intro u hu
+  simpa using hgap u hu
+
 /-- non-vacuity: a concrete non-trivial well-formed store -/
 example : ({ l := [⟨"k",0,1,3,none⟩, ⟨"k",0,2,5,none⟩, ⟨"k",0,3,9,none⟩],
              arr := [⟨"k",0,1,3,none⟩, ⟨"k",0,2,5,none⟩, ⟨"k",0,3,9,none⟩] } : VFile).WF :=
